@@ -3,13 +3,10 @@
 ; statements C01/C04/C06/C13, in accumulator form: (W sd sv m x o) is the builder content after
 ; writing x onto content o.   Context: sd/sv = the scope map (domain / value), m = mode
 ; (0 default, 1 join condition, 2 let value).
-(module-uses consts height spanof)
+(module-uses consts height spanof exprwf)
 
 (define-fun isBuiltinName ((k Str)) Bool (or (= k "true") (= k "false") (= k "null")))
 (define-fun builtinSQL ((k Str)) Str (ite (= k "true") "TRUE" (ite (= k "false") "FALSE" (ite (= k "null") "NULL" Str.empty))))
-(define-fun binopKnown ((op Int)) Bool
-  (or (= op TokenAnd) (= op TokenOr) (= op TokenPlus) (= op TokenMinus) (= op TokenStar) (= op TokenSlash)
-      (= op TokenMod) (= op TokenLT) (= op TokenLE) (= op TokenGT) (= op TokenGE)))
 (define-fun binopSQL ((op Int)) Str
   (ite (= op TokenAnd) "AND" (ite (= op TokenOr) "OR" (ite (= op TokenPlus) "+" (ite (= op TokenMinus) "-"
   (ite (= op TokenStar) "*" (ite (= op TokenSlash) "/" (ite (= op TokenMod) "%" (ite (= op TokenLT) "<"
@@ -168,30 +165,6 @@
        (=> (or (= k "iff") (= k "iif")) (= n 3))
        (=> (= k "strcat") (>= n 1))))
 
-; ---- well-formedness of expression trees the parser owes the compiler (Appendix D)
-(declare-fun exprWF (Node) Bool)
-(declare-fun exprWFL (Seq_Node Int) Bool)
-(declare-fun identsWFL (Seq_Node Int) Bool)
-(assert (forall ((l Seq_Node) (n Int)) (! (= (exprWFL l n) (ite (<= n 0) true (and (exprWFL l (- n 1)) (exprWF (Seq_Node.nth l (- n 1)))))) :pattern ((exprWFL l n)))))
-(assert (forall ((l Seq_Node) (n Int)) (! (= (identsWFL l n) (ite (<= n 0) true (and (identsWFL l (- n 1)) ((_ is mk_Ident) (Seq_Node.nth l (- n 1)))))) :pattern ((identsWFL l n)))))
-(assert (= (exprWF nilN) false))
-(assert (forall ((t Int)) (! (= (exprWF (nilp t)) false) :pattern ((exprWF (nilp t))))))
-(assert (forall ((parts Seq_Node)) (! (= (exprWF (mk_QualifiedIdent parts)) (and (> (Seq_Node.len parts) 0) (identsWFL parts (Seq_Node.len parts)))) :pattern ((exprWF (mk_QualifiedIdent parts))))))
-(assert (forall ((vs Span) (k Int) (v Str)) (! (= (exprWF (mk_BasicLit vs k v)) (or (= k TokenNumber) (= k TokenString))) :pattern ((exprWF (mk_BasicLit vs k v))))))
-(assert (forall ((os Span) (op Int) (x Node)) (! (= (exprWF (mk_UnaryExpr os op x)) (and (or (= op TokenPlus) (= op TokenMinus)) (exprWF x))) :pattern ((exprWF (mk_UnaryExpr os op x))))))
-(assert (forall ((x Node) (os Span) (op Int) (y Node)) (! (= (exprWF (mk_BinaryExpr x os op y))
-   (and (exprWF x) (exprWF y) (or (binopKnown op) (= op TokenEq) (= op TokenNE) (= op TokenCaseInsensitiveEq) (= op TokenCaseInsensitiveNE)))) :pattern ((exprWF (mk_BinaryExpr x os op y))))))
-(assert (forall ((x Node) (in Span) (lp Span) (vals Seq_Node) (rp Span)) (! (= (exprWF (mk_InExpr x in lp vals rp)) (and (exprWF x) (exprWFL vals (Seq_Node.len vals)))) :pattern ((exprWF (mk_InExpr x in lp vals rp))))))
-(assert (forall ((lp Span) (x Node) (rp Span)) (! (= (exprWF (mk_ParenExpr lp x rp)) (exprWF x)) :pattern ((exprWF (mk_ParenExpr lp x rp))))))
-(assert (forall ((fn Node) (lp Span) (args Seq_Node) (rp Span)) (! (= (exprWF (mk_CallExpr fn lp args rp)) (and ((_ is mk_Ident) fn) (exprWFL args (Seq_Node.len args)))) :pattern ((exprWF (mk_CallExpr fn lp args rp))))))
-(assert (forall ((x Node) (lb Span) (idx Node) (rb Span)) (! (= (exprWF (mk_IndexExpr x lb idx rb)) (and (exprWF x) (exprWF idx))) :pattern ((exprWF (mk_IndexExpr x lb idx rb))))))
-; only the eight expression node types are expressions
-(assert (forall ((n Node)) (! (=> (exprWF n) (or ((_ is mk_QualifiedIdent) n) ((_ is mk_BasicLit) n) ((_ is mk_UnaryExpr) n) ((_ is mk_BinaryExpr) n) ((_ is mk_InExpr) n) ((_ is mk_ParenExpr) n) ((_ is mk_CallExpr) n) ((_ is mk_IndexExpr) n))) :pattern ((exprWF n)))))
-(lemma exprWFL-nth :induction n (forall ((l Seq_Node) (n Int) (i Int)) (! (=> (and (exprWFL l n) (<= 0 i) (< i n)) (exprWF (Seq_Node.nth l i))) :pattern ((exprWFL l n) (Seq_Node.nth l i)))))
-(lemma identsWFL-nth :induction n (forall ((l Seq_Node) (n Int) (i Int)) (! (=> (and (identsWFL l n) (<= 0 i) (< i n)) ((_ is mk_Ident) (Seq_Node.nth l i))) :pattern ((identsWFL l n) (Seq_Node.nth l i)))))
 ; stripping keeps well-formedness and does not increase the height
 (lemma strip-wf :induction x (forall ((x Node)) (! (=> (exprWF x) (and (exprWF (strip x)) (not ((_ is mk_ParenExpr) (strip x))) (<= (height (strip x)) (height x)))) :pattern ((strip x)))))
 (lemma W-strip :induction x (forall ((sd (Array Str Bool)) (sv (Array Str Str)) (m Int) (x Node) (o Out)) (! (= (W sd sv m (strip x) o) (W sd sv m x o)) :pattern ((W sd sv m (strip x) o)))))
-(lemma identsWFL-spanSafe :induction n (forall ((l Seq_Node) (n Int)) (! (=> (identsWFL l n) (spanSafeList l n)) :pattern ((identsWFL l n) (spanSafeList l n)))))
-(lemma identsWFL-snoc :induction n (forall ((l Seq_Node) (x Node) (n Int)) (! (=> (<= n (Seq_Node.len l)) (= (identsWFL (Seq_Node.snoc l x) n) (identsWFL l n))) :pattern ((identsWFL (Seq_Node.snoc l x) n)))))
-(lemma exprWFL-snoc :induction n (forall ((l Seq_Node) (x Node) (n Int)) (! (=> (<= n (Seq_Node.len l)) (= (exprWFL (Seq_Node.snoc l x) n) (exprWFL l n))) :pattern ((exprWFL (Seq_Node.snoc l x) n)))))
